@@ -1,4 +1,5 @@
 import logging
+import types
 import numpy as np
 import numba
 
@@ -169,9 +170,22 @@ def parallelize(func):
     def wrapper(*args, **kwargs):
         use_parallel = config.NUM_THREADS > 1
         if use_parallel not in _compiled:
+            # numba's on-disk cache identifies a kernel by the function's name and
+            # argument types, not by the ``parallel`` option: give each variant its
+            # own name, otherwise whichever was cached first is loaded for both.
+            variant = types.FunctionType(
+                func.__code__,
+                func.__globals__,
+                func.__name__,
+                func.__defaults__,
+                func.__closure__,
+            )
+            variant.__qualname__ = func.__qualname__ + (
+                "_parallel" if use_parallel else "_serial"
+            )
             _compiled[use_parallel] = numba.jit(
                 nopython=True, parallel=use_parallel, cache=True
-            )(func)
+            )(variant)
         return _compiled[use_parallel](*args, **kwargs)
 
     return wrapper
